@@ -24,7 +24,7 @@ CORE_TRUSTED = [
 
 
 class CoreCheck(LineCheck):
-    coq_extra = ["theories/Core/CoreRel.vo", "theories/Core/CoreInv.vo", "theories/Core/CoreCodes.vo"]
+    coq_extra = ["theories/Core/CoreRel.vo", "theories/Core/CoreInv.vo", "theories/Core/CoreCodes.vo", "theories/Core/CoreCodes2.vo"]
     codes = []             # list of (lo, hi) failure-code ranges of the Coq monitor that belong to this property
     extra_codes = []
     profiles = ["mixed"]
